@@ -13,7 +13,6 @@ NA = {
  "C09": "fault injection at the k-th transport operation requires running the dispatch / channel state machines for k operations: " + R,
  "C10": "shutdown ordering of the same two state machines: " + R,
  "C11": "reclamation of the in-flight tables and timers (table harness: 14 GB): " + R,
- "C12": "MaxRequests::poll_next is small, but the property is about the real BaseChannel's in-flight count under concurrent completions and a TrackedRequest carries Span + ResponseGuard (tokio mpsc) drop glue: " + R,
  "C14": "the sequence of Sink/Stream calls both state machines make on a transport: " + R,
  "C18": "trace contexts travel through call -> dispatch -> start_request; the one leaf (trace::Context::new_child) draws from rand::thread_rng(), i.e. the OS RNG; " + R,
 }
@@ -31,6 +30,9 @@ checks = [
      "in-crate overlay on a scratch copy; arming expression extracted textually each run; Instant::now stubbed; " + REPLAY, "Kani/CBMC over tarpc's own time_until + extracted server arming expression, symbolic clock; native replay", "DESIGN §3 C06"),
  chk("C07", "Bounded symbolic model checking (Kani/CBMC) of tarpc's real (de)serialisation of Context/Request through a typed wire model: for every clock reading, deadline, transit and processing delay (u32 s + ns), 1 and 3 hops, three codec conventions: never earlier, later by at most transit, expired arrives as now, omitted deadline = now+10 s.",
      "harness-side serde format (wire model) whose integer conventions are validated natively against real bincode/serde_json each run; Instant::now stubbed; handler hand-off and context::current() outside; " + REPLAY, "Kani/CBMC over the derived serde impls + absolute_to_relative_time with a symbolic clock; native replay", "DESIGN §3 C07"),
+ chk("C12", "Bounded symbolic model checking (Kani/CBMC) of the real MaxRequests limiter (poll_next + Sink forwarding) as an inductive step: ONE poll from each of six enumerated states (limit 0/1/2 x in-flight count), with what the wrapped channel yields (request with any id / Pending / end / error, up to 3 events) and its sink readiness symbolic: a request reaches the application only while fewer than L are in flight; every refused request gets exactly one WouldBlock response with its own id, written only to a ready sink, and is not handed over; nothing is refused below L. The REAL BaseChannel's in-flight counting is NOT decided: the wrapped channel is a harness model of the Channel contract.",
+     "wrapped channel = harness model (count rises when a request is yielded, falls when a response is written); stub alloc::sync::Arc::drop_slow -> no-op (leak) so that dropping a refused TrackedRequest's tracing::Span does not explode; tokio mpsc behind RequestCancellation replaced under Kani by a waker-less model; tracing compiled out; " + REPLAY,
+     "Kani/CBMC one-step (inductive) symbolic execution of the limiter against a contract-model channel; native replay", "DESIGN §3 C12"),
  chk("C13", "Bounded symbolic model checking (Kani/CBMC) of the real MaxChannelsPerKey state machine (poll_next, admission by strong count, close notifications, Tracker drop) in directed scenarios with symbolic keys: stale close notification racing a same-key arrival, shedding only the key at its limit, limit 2; thorough adds longer scenarios and 3 solver-chosen operations. Sequences longer than 4-5 operations, > 2 keys and wake-ups are NOT decided.",
      "tokio mpsc and FnvHashMap are replaced UNDER KANI ONLY by array-backed contract models (FIFO that never blocks; map with entry/insert/get/remove; capacity 2, overflow = assertion failure) injected into a scratch copy; tracing compiled out; the harness polls by hand; every counterexample is replayed natively against the REAL tokio mpsc and hash map; " + REPLAY,
      "Kani/CBMC bounded symbolic execution of the channel-filter state machine with environment models; native replay against the real environment", "DESIGN §3 C13"),
